@@ -400,6 +400,15 @@ def header_reader_rules(prog, chk, pid):
                         if not hit:
                             other += 1
                 ok = want_atoms == 2 and other == 0
+                if not ok and r[0] == "rel" and r[1] == "Eq":
+                    # (tag | len) == 0, tag + len == 0: for two bytes (0..255 each) the OR / the sum is zero exactly when both are
+                    for x, y in ((r[2], r[3]), (r[3], r[2])):
+                        x = unsnap(x)
+                        if is_const(y) and cval(y) == 0 and not isinstance(cval(y), bool) and x.op == "bin" and x.args[0] in ("BitOr", "Add"):
+                            l_, r_ = unsnap(x.args[1]), unsnap(x.args[2])
+                            both = lambda p_, q_: any(p_ is v for v in tagf.int_views) and any(q_ is v for v in lenf.int_views)
+                            if both(l_, r_) or both(r_, l_):
+                                ok = True
             why = "header loop does not stop exactly at the 00 00 terminator"
     chk.require(ok, P("header-grammar"), fi.qualname, show_reader(rd), where, "BEC2 header is parsed as TLV records (U8 tag, U8 len, value[len]) until tag = len = 0", why)
     return (fi, ex, res, rd, tagf, lenf, valf) if ok else None
